@@ -17,7 +17,7 @@ import (
 // own keys: HKDF over secrets it picks, AEAD under keys it picks, signatures with its own
 // Ed25519 key. It cannot produce an SRP client proof (no setup code) - proofs are arbitrary
 // bytes. After every message the set of stored pairings is unchanged.
-func c02Attacker(k int) {
+func c02Attacker(k int, lean bool) {
 	w := eeNewWorld()
 	w.connect("10.0.0.9:6000")
 	remote := "10.0.0.9:6000"
@@ -60,7 +60,11 @@ func c02Attacker(k int) {
 			var enc []byte
 			switch verif.Choice("enc"+id, 3) {
 			case 0: // shorter than an auth tag
-				n := []int{0, 1, 15}[verif.Choice("short"+id, 3)]
+				shorts := []int{0, 1, 15}
+				if lean {
+					shorts = []int{15}
+				}
+				n := shorts[verif.Choice("short"+id, len(shorts))]
 				hist += "keyexchange(short);"
 				enc = verif.Bytes("short-enc"+id, n)
 			case 1: // arbitrary bytes
@@ -84,7 +88,7 @@ func c02Attacker(k int) {
 				name := "evil"
 				material := append(append(append([]byte{}, h[:]...), []byte(name)...), attPub...)
 				var sig []byte
-				if verif.Choice("sig"+id, 2) == 0 {
+				if lean || verif.Choice("sig"+id, 2) == 0 {
 					hist += ",signed);"
 					sig = ed25519.Sign(attPriv, material)
 				} else {
@@ -92,7 +96,10 @@ func c02Attacker(k int) {
 					sig = verif.Bytes("garbage-sig"+id, 64)
 				}
 				sub := eeTLV(pair.TagUsername, name, pair.TagPublicKey, []byte(attPub), pair.TagSignature, sig)
-				nonce := []string{"PS-Msg05", "PS-Msg06"}[verif.Choice("nonce"+id, 2)]
+				nonce := "PS-Msg05"
+				if !lean {
+					nonce = []string{"PS-Msg05", "PS-Msg06"}[verif.Choice("nonce"+id, 2)]
+				}
 				ct, mac, _ := chacha20poly1305.EncryptAndSeal(key[:], []byte(nonce), sub, nil)
 				enc = append(ct, mac[:]...)
 			}
@@ -114,5 +121,9 @@ func c02Attacker(k int) {
 	verif.Reach("end")
 }
 
-func Harness_C02_q_attacker_3() { c02Attacker(3) }
-func Harness_C02_t_attacker_4() { c02Attacker(4) }
+func Harness_C02_q_attacker_3() { c02Attacker(3, false) }
+
+// four messages over the lean alphabet (13 instead of 31 alternatives per step: the M5
+// variants that differ only in the nonce label, an unsigned sub-TLV or the length of a
+// too-short ciphertext are left to the 3-message harness)
+func Harness_C02_t_attacker_4() { c02Attacker(4, true) }
